@@ -263,12 +263,19 @@ fn gen_data(r: &mut Rng, s: &ValidatorSchema, n: usize) -> Vec<(String, Datum)> 
             match r.below(5) {
                 0 if !permitted.is_empty() => {
                     let pt1 = r.pick(&permitted).name().clone();
-                    parents.insert(euid_of(s, r, &pt1));
+                    let pu = euid_of(s, r, &pt1);
+                    // (an entity that is its own parent is a hierarchy cycle, not a schema matter)
+                    if pu != uid {
+                        parents.insert(pu);
+                    }
                 }
                 1 => {
                     if let Some(t) = ets.iter().find(|t| !t.descendants.contains(et.name())) {
-                        parents.insert(euid_of(s, r, t.name()));
-                        tag = "ancestor-type";
+                        let pu = euid_of(s, r, t.name());
+                        if pu != uid {
+                            parents.insert(pu);
+                            tag = "ancestor-type";
+                        }
                     }
                 }
                 2 if et.tag_type().is_none() => {
@@ -439,7 +446,7 @@ fn compare_verdicts(out: &mut Out, r: &mut Rng, case: &str, route: &str, s1: &Va
             out.propfail("request/entity validation verdict differs between original and translated schema", case, &format!("{route}: {tag} {}: original={v1} translated={v2}", describe_datum(&d)));
         }
         if tag.ends_with(":conformant") && v1 != "ok" {
-            out.count("generator_conformant_datum_rejected");
+            out.count(&format!("generator_conformant_datum_rejected:{tag}:{v1}"));
         }
     }
 }
